@@ -219,4 +219,304 @@ Section Proof.
       + intros F. cbn [map]. rewrite E_exec_gas_cons, E_exec_ga, holds_strengthen, (He t Ht), andb_false_r.
         cbn [strengthen ga_var ga_default]. apply HE.
   Qed.
+
+  (* ---------- the copies  _old<k> = x ---------- *)
+  Lemma E_sample_det x t F : E (sample law (RDet (EVar x)) t) F = F (t x).
+  Proof.
+    cbn [RDet sample map fst snd eval E].
+    assert (H1 : mkq 1 1 = 1) by reflexivity. rewrite H1. ring.
+  Qed.
+
+  Lemma copies_exec (R : rmap) :
+    NoDup (map snd R) -> (forall x, In x (map fst R) -> ~ In x (map snd R)) ->
+    forall t, exists t1, (forall F, E (exec_gas law (map copy_ga R) t) F = F t1)
+      /\ (forall x o, In (x, o) R -> t1 o = t x) /\ (forall y, ~ In y (map snd R) -> t1 y = t y).
+  Proof.
+    induction R as [|[x o] R IH]; intros Hnd Hkt t.
+    - exists t. split; [intros F; apply E_ret|]. split; [intros x o []| intros; reflexivity].
+    - cbn [map fst snd] in *. inversion Hnd as [|o' l' Hno Hnd']; subst.
+      destruct (IH Hnd' (fun x0 Hx0 Hin => Hkt x0 (or_intror Hx0) (or_intror Hin)) (upd t o (t x)))
+        as [t1 [HE [Hcp Hfr]]].
+      exists t1. split; [|split].
+      + intros F. rewrite E_exec_gas_cons, E_exec_ga. cbn [copy_ga ga_cond ga_rhs ga_var fst snd holds].
+        rewrite E_sample_det. apply HE.
+      + intros x0 o0 [Heq|Hin].
+        * inversion Heq; subst. rewrite (Hfr o0 Hno). apply upd_same.
+        * rewrite (Hcp x0 o0 Hin). apply upd_other. intros ->.
+          apply (Hkt o (or_intror (in_map fst _ _ Hin))). left; reflexivity.
+      + intros y Hy. rewrite Hfr by (intros Hin; apply Hy; right; exact Hin).
+        apply upd_other. intros ->. apply Hy. left; reflexivity.
+  Qed.
+
+  (* ---------- rename maps ---------- *)
+  Lemma rlookup_app_some R X x o : rlookup R x = Some o -> rlookup (R ++ X) x = Some o.
+  Proof.
+    induction R as [|[y o'] R IH]; cbn [rlookup app]; [discriminate|].
+    destruct (var_eqb x y); [intros H; exact H | exact IH].
+  Qed.
+  Lemma rlookup_none R x : rlookup R x = None <-> ~ In x (map fst R).
+  Proof.
+    induction R as [|[y o'] R IH]; cbn [rlookup map fst In].
+    - split; [intros _ [] | reflexivity].
+    - destruct (var_eqb x y) eqn:E.
+      + apply var_eqb_eq in E. subst. split; [discriminate | intros H; exfalso; apply H; left; reflexivity].
+      + apply var_eqb_neq in E. rewrite IH. split; [intros H [H1|H1]; [apply E; symmetry; exact H1 | exact (H H1)] | intros H H1; apply H; right; exact H1].
+  Qed.
+  Lemma rlookup_In R x o : rlookup R x = Some o -> In (x, o) R.
+  Proof.
+    induction R as [|[y o'] R IH]; cbn [rlookup]; [discriminate|].
+    destruct (var_eqb x y) eqn:E.
+    - apply var_eqb_eq in E. intros H; inversion H; subst. left; reflexivity.
+    - intros H. right. exact (IH H).
+  Qed.
+
+  Lemma extend_prefix CS l : forall R k R' k', extend CS l R k = (R', k') -> exists X, R' = R ++ X.
+  Proof.
+    induction l as [|g l IH]; intros R k R' k'; cbn [extend].
+    - intros H; inversion H; subst. exists []. rewrite app_nil_r. reflexivity.
+    - destruct (mem (ga_var g) CS && negb (mem (ga_var g) (map fst R))).
+      + intros H. destruct (IH _ _ _ _ H) as [X HX]. exists ((ga_var g, old_name k) :: X).
+        rewrite HX, <- app_assoc. reflexivity.
+      + apply IH.
+  Qed.
+
+  Lemma extend_complete CS l : forall R k R' k', extend CS l R k = (R', k') ->
+    forall x, In x CS -> In x (gvars l) -> In x (map fst R').
+  Proof.
+    induction l as [|g l IH]; intros R k R' k' H x Hcs Hx; cbn [extend gvars map] in *; [destruct Hx|].
+    destruct Hx as [Hx|Hx].
+    - subst x. destruct (mem (ga_var g) CS && negb (mem (ga_var g) (map fst R))) eqn:Eb.
+      + destruct (extend_prefix _ _ _ _ _ _ H) as [X HX]. rewrite HX, !map_app. apply in_or_app. left.
+        apply in_or_app. right. left. reflexivity.
+      + destruct (extend_prefix _ _ _ _ _ _ H) as [X HX]. rewrite HX, map_app. apply in_or_app. left.
+        apply andb_false_iff in Eb. destruct Eb as [Eb|Eb].
+        * apply mem_nIn in Eb. contradiction.
+        * apply negb_false_iff in Eb. apply mem_In in Eb. exact Eb.
+    - destruct (mem (ga_var g) CS && negb (mem (ga_var g) (map fst R))); eapply IH; eauto.
+  Qed.
+
+  (* the targets of a rename map are consecutive generated names; keys are condition symbols *)
+  Definition Rinv (CS : list var) (k0 : nat) (R : rmap) (k : nat) : Prop :=
+    map snd R = map old_name (seq k0 (List.length R)) /\ k = (k0 + List.length R)%nat /\ (forall x, In x (map fst R) -> In x CS).
+
+  Lemma extend_inv CS k0 l : forall R k R' k', Rinv CS k0 R k -> extend CS l R k = (R', k') -> Rinv CS k0 R' k'.
+  Proof.
+    induction l as [|g l IH]; intros R k R' k' Hi; cbn [extend].
+    - intros H; inversion H; subst. exact Hi.
+    - destruct (mem (ga_var g) CS && negb (mem (ga_var g) (map fst R))) eqn:Eb; [|apply IH; exact Hi].
+      apply IH. destruct Hi as [H1 [H2 H3]]. unfold Rinv. rewrite !map_app, app_length. cbn [List.length map fst snd].
+      replace (List.length R + 1)%nat with (S (List.length R)) by lia. rewrite seq_S, map_app. cbn [map].
+      split; [rewrite H1, H2; reflexivity|]. split; [lia|].
+      intros x Hx. apply in_app_or in Hx. destruct Hx as [Hx|[Hx|[]]]; [apply H3; exact Hx|].
+      subst x. apply andb_true_iff in Eb. destruct Eb as [Eb _]. apply mem_In in Eb. exact Eb.
+  Qed.
+
+  Lemma final_prefix CS brs : forall R k Rf kf, final_R CS brs R k = (Rf, kf) -> exists X, Rf = R ++ X.
+  Proof.
+    induction brs as [|cl brs IH]; intros R k Rf kf; cbn [final_R].
+    - intros H; inversion H; subst. exists []. rewrite app_nil_r. reflexivity.
+    - destruct (extend CS (snd cl) R k) as [R' k'] eqn:Ee. intros H.
+      destruct (extend_prefix _ _ _ _ _ _ Ee) as [X1 H1]. destruct (IH _ _ _ _ H) as [X2 H2].
+      exists (X1 ++ X2). rewrite H2, H1, app_assoc. reflexivity.
+  Qed.
+
+  Lemma final_inv CS k0 brs : forall R k Rf kf, Rinv CS k0 R k -> final_R CS brs R k = (Rf, kf) -> Rinv CS k0 Rf kf.
+  Proof.
+    induction brs as [|cl brs IH]; intros R k Rf kf Hi; cbn [final_R].
+    - intros H; inversion H; subst. exact Hi.
+    - destruct (extend CS (snd cl) R k) as [R' k'] eqn:Ee. apply IH. eapply extend_inv; eauto.
+  Qed.
+
+  Lemma final_complete CS brs : forall R k Rf kf, final_R CS brs R k = (Rf, kf) ->
+    forall cl x, In cl brs -> In x CS -> In x (gvars (snd cl)) -> In x (map fst Rf).
+  Proof.
+    induction brs as [|cl0 brs IH]; intros R k Rf kf H cl x Hcl Hcs Hx; [destruct Hcl|].
+    cbn [final_R] in H. destruct (extend CS (snd cl0) R k) as [R' k'] eqn:Ee.
+    destruct Hcl as [Hcl|Hcl].
+    - subst cl0. destruct (final_prefix _ _ _ _ _ _ H) as [X HX]. rewrite HX, map_app. apply in_or_app. left.
+      eapply extend_complete; eauto.
+    - eapply IH; eauto.
+  Qed.
+
+  (* ---------- source semantics of a list of flattened branches ---------- *)
+  Definition sim (l : list gassign) (D : state -> dist state) : Prop :=
+    forall s t, agree s t -> forall g h,
+      (forall t' s', agree s' t' -> frame (gvars l) t t' -> g t' = h s') ->
+      E (exec_gas law l t) g = E (D s) h.
+
+  Definition item := (fbranch * (state -> dist state))%type.
+  Fixpoint first_match (items : list item) (s : state) : option (dist state) :=
+    match items with
+    | [] => None
+    | it :: r => if holds (fst (fst it)) s then Some (snd it s) else first_match r s
+    end.
+  Definition sem_items (items : list item) (s : state) : dist state :=
+    match first_match items s with Some d => d | None => ret s end.
+
+  Fixpoint excl (s : state) (cs : list cond) : Prop :=
+    match cs with
+    | [] => True
+    | c :: cs' => (holds c s = true -> forall c', In c' cs' -> holds c' s = false) /\ excl s cs'
+    end.
+
+  Lemma gvars_app l1 l2 : gvars (l1 ++ l2) = gvars l1 ++ gvars l2.
+  Proof. apply map_app. Qed.
+
+  Section OneIf.
+    Variables (mx : bool) (CS : list var) (Rf : rmap) (kf : nat) (s : state).
+
+    Definition Good (M : list var) (t : state) : Prop :=
+      forall x, In x CS -> t (rn Rf x) = s x /\ (~ In x M -> t x = s x).
+
+    Lemma good_seq M t t' : Good M t -> seq_st t t' -> Good M t'.
+    Proof. intros H Hs x Hx. rewrite !Hs. apply H; exact Hx. Qed.
+    Lemma good_mono M M' t : (forall x, In x M -> In x M') -> Good M t -> Good M' t.
+    Proof. intros Hi H x Hx. destruct (H x Hx) as [H1 H2]. split; [exact H1 | intros Hn; apply H2; intros Hm; apply Hn, Hi, Hm]. Qed.
+
+    Lemma good_rn M t R : Good M t -> (exists X, Rf = R ++ X) ->
+      (forall x, In x CS -> In x M -> In x (map fst R)) -> forall x, In x CS -> t (rn R x) = s x.
+    Proof.
+      intros Hg [X HX] Hm x Hx. destruct (Hg x Hx) as [H1 H2]. unfold rn in *.
+      destruct (rlookup R x) as [o|] eqn:El.
+      - rewrite HX, (rlookup_app_some R X x o El) in H1. exact H1.
+      - apply H2. intros Hin. apply rlookup_none in El. apply El. apply Hm; assumption.
+    Qed.
+
+    Lemma extra_truth M t R cur : Good M t -> (exists X, Rf = R ++ X) ->
+      (forall x, In x CS -> In x M -> In x (map fst R)) -> incl (cvars cur) CS ->
+      holds (rename_c R (if mx then R else Rf) (csimp cur)) t = holds cur s.
+    Proof.
+      intros Hg Hp Hm Hi. rewrite <- (holds_csimp cur s).
+      assert (HR : forall x, In x (cvars (csimp cur)) -> t (rn R x) = s x).
+      { intros x Hx. eapply good_rn; eauto. apply Hi. apply cvars_csimp. exact Hx. }
+      apply holds_rename; [exact HR|]. destruct mx; [exact HR|].
+      intros x Hx. apply Hg. apply Hi. apply cvars_csimp. exact Hx.
+    Qed.
+
+    (* (b),(d): every remaining block is a no-op *)
+    Lemma emit_noop : forall brs NP R k M t,
+      final_R CS brs R k = (Rf, kf) ->
+      (forall cl, In cl brs -> incl (cvars (fst cl)) CS /\ defaults_ok (snd cl)) ->
+      incl (cvars NP) CS ->
+      (forall x, In x CS -> In x M -> In x (map fst R)) ->
+      (mx = false -> holds NP s = false) ->
+      (mx = true -> forall cl, In cl brs -> holds (fst cl) s = false) ->
+      Good M t ->
+      exists t', seq_st t t' /\ forall F, E (exec_gas law (emit mx CS Rf NP brs R k) t) F = F t'.
+    Proof.
+      induction brs as [|cl brs IH]; intros NP R k M t Hfin Hbrs HNP Hm Hnp Hmx Hg.
+      - exists t. split; [intros x; reflexivity | intros F; apply E_ret].
+      - cbn [final_R emit] in *. destruct (extend CS (snd cl) R k) as [R' k'] eqn:Ee.
+        destruct (Hbrs cl (or_introl eq_refl)) as [Hc Hd].
+        destruct (extend_prefix _ _ _ _ _ _ Ee) as [X1 HX1].
+        assert (Hm' : forall x, In x CS -> In x M -> In x (map fst R')).
+        { intros x Hx HM. rewrite HX1, map_app. apply in_or_app. left. apply Hm; assumption. }
+        set (cur := if mx then fst cl else CAnd NP (fst cl)).
+        assert (Hcur : incl (cvars cur) CS).
+        { unfold cur. destruct mx; [exact Hc|]. cbn [cvars]. apply incl_app; assumption. }
+        assert (Hfalse : holds cur s = false).
+        { unfold cur. destruct mx eqn:Emx.
+          - apply Hmx; [reflexivity | left; reflexivity].
+          - cbn [holds]. rewrite Hnp by reflexivity. reflexivity. }
+        destruct (strengthen_false (Good M) (rename_c R' (if mx then R' else Rf) (csimp cur)) (snd cl)) with (t := t)
+          as [t1 [Hs1 HE1]].
+        + intros t0 H0. rewrite (extra_truth M t0 R' cur H0 (final_prefix _ _ _ _ _ _ Hfin) Hm' Hcur). exact Hfalse.
+        + intros t0 t0' H0 Hs0. eapply good_seq; eauto.
+        + exact Hd.
+        + exact Hg.
+        + destruct (IH (CAnd NP (CNot (fst cl))) R' k' M t1 Hfin) as [t2 [Hs2 HE2]].
+          * intros cl' Hin. apply Hbrs. right; exact Hin.
+          * cbn [cvars]. apply incl_app; assumption.
+          * exact Hm'.
+          * intros Emx. cbn [holds]. rewrite Hnp by exact Emx. reflexivity.
+          * intros Emx cl' Hin. apply Hmx; [exact Emx | right; exact Hin].
+          * eapply good_seq; eauto.
+          * exists t2. split; [intros x; rewrite Hs2; apply Hs1|].
+            intros F. rewrite E_exec_gas_app, HE1. apply HE2.
+    Qed.
+
+    Definition item_ok (it : item) : Prop :=
+      incl (cvars (fst (fst it))) CS /\ defaults_ok (snd (fst it)) /\ sim (snd (fst it)) (snd it)
+      /\ (forall y x, In y (gvars (snd (fst it))) -> In x CS -> rn Rf x <> y).
+
+    (* (b),(c),(d),(e): blocks before the first true condition are no-ops, the taken block runs as
+       the source branch, the remaining ones are no-ops *)
+    Lemma emit_sim : forall items NP R k t,
+      final_R CS (map fst items) R k = (Rf, kf) ->
+      (forall it, In it items -> item_ok it) ->
+      incl (cvars NP) CS ->
+      (mx = false -> holds NP s = true) ->
+      (mx = true -> excl s (map (fun it : item => fst (fst it)) items)) ->
+      agree s t -> Good [] t ->
+      forall g h,
+        (forall t' s', agree s' t' -> frame (gvars (emit mx CS Rf NP (map fst items) R k)) t t' -> g t' = h s') ->
+        E (exec_gas law (emit mx CS Rf NP (map fst items) R k) t) g = E (sem_items items s) h.
+    Proof.
+      induction items as [|it items IH]; intros NP R k t Hfin Hok HNP Hnp Hex Hag Hg g h Hgh.
+      - cbn [map emit exec_gas]. unfold sem_items; cbn [first_match]. rewrite !E_ret.
+        apply Hgh; [exact Hag | intros y _; reflexivity].
+      - destruct it as [[c l] D]. cbn [map fst snd final_R emit] in *.
+        destruct (extend CS l R k) as [R' k'] eqn:Ee.
+        destruct (Hok _ (or_introl eq_refl)) as [Hc [Hd [Hsim Hdisj]]]. cbn [fst snd] in *.
+        set (cur := if mx then c else CAnd NP c) in *.
+        set (extra := rename_c R' (if mx then R' else Rf) (csimp cur)) in *.
+        set (rest := emit mx CS Rf (CAnd NP (CNot c)) (map fst items) R' k') in *.
+        assert (Hcur : incl (cvars cur) CS).
+        { unfold cur. destruct mx; [exact Hc|]. cbn [cvars]. apply incl_app; assumption. }
+        assert (HNP' : incl (cvars (CAnd NP (CNot c))) CS) by (cbn [cvars]; apply incl_app; assumption).
+        pose proof (final_prefix _ _ _ _ _ _ Hfin) as Hpre.
+        assert (Hok' : forall cl, In cl (map fst items) -> incl (cvars (fst cl)) CS /\ defaults_ok (snd cl)).
+        { intros cl Hin. apply in_map_iff in Hin. destruct Hin as [it' [<- Hin']].
+          destruct (Hok it' (or_intror Hin')) as [H1 [H2 _]]. split; assumption. }
+        destruct (holds c s) eqn:Ec.
+        + (* the taken block *)
+          assert (Hcurt : holds cur s = true).
+          { unfold cur. destruct mx; [exact Ec|]. cbn [holds]. rewrite Hnp, Ec by reflexivity. reflexivity. }
+          assert (HmL : forall x, In x CS -> In x (gvars l) -> In x (map fst R')).
+          { intros x Hx Hl. eapply extend_complete; eauto. }
+          assert (HgL : Good (gvars l) t) by (eapply good_mono; [|exact Hg]; intros x []).
+          rewrite E_exec_gas_app.
+          rewrite (strengthen_true (Good (gvars l)) extra l); [| | |exact HgL].
+          2:{ intros t0 H0. unfold extra. rewrite (extra_truth (gvars l) t0 R' cur H0 Hpre HmL Hcur). exact Hcurt. }
+          2:{ intros t0 y v H0 Hy x Hx. destruct (H0 x Hx) as [H1 H2]. split.
+              - rewrite upd_other; [exact H1 | apply Hdisj; assumption].
+              - intros Hn. rewrite upd_other; [apply H2; exact Hn | intros ->; apply Hn; exact Hy]. }
+          unfold sem_items; cbn [first_match fst snd]. rewrite Ec.
+          apply Hsim; [exact Hag|]. intros t2 s2 Hag2 Hfr2.
+          assert (Hg2 : Good (gvars l) t2).
+          { intros x Hx. destruct (Hg x Hx) as [H1 H2]. split.
+            - rewrite Hfr2; [exact H1|]. intros Hin. exact (Hdisj _ _ Hin Hx eq_refl).
+            - intros Hn. rewrite Hfr2 by exact Hn. apply H2. intros []. }
+          destruct (emit_noop (map fst items) (CAnd NP (CNot c)) R' k' (gvars l) t2 Hfin Hok' HNP' HmL) as [t3 [Hs3 HE3]].
+          * intros Emx. cbn [holds]. rewrite Ec. apply andb_false_r.
+          * intros Emx cl Hin. specialize (Hex Emx). cbn [map excl fst] in Hex. destruct Hex as [Hex _].
+            apply Hex; [exact Ec|]. apply in_map_iff in Hin. destruct Hin as [it' [<- Hin']].
+            apply in_map_iff. exists it'. split; [reflexivity | exact Hin'].
+          * exact Hg2.
+          * fold rest. rewrite HE3. apply Hgh.
+            -- intros x Hx. rewrite Hs3. apply Hag2; exact Hx.
+            -- intros y Hy. rewrite Hs3. apply Hfr2. intros Hin. apply Hy.
+               rewrite gvars_app, gvars_strengthen. apply in_or_app. left; exact Hin.
+        + (* a block before the taken one: no-op *)
+          assert (Hcurf : holds cur s = false).
+          { unfold cur. destruct mx; [exact Ec|]. cbn [holds]. rewrite Ec. apply andb_false_r. }
+          assert (Hm0 : forall x, In x CS -> In x (@nil var) -> In x (map fst R')) by (intros x _ []).
+          destruct (strengthen_false (Good []) extra l) with (t := t) as [t1 [Hs1 HE1]].
+          * intros t0 H0. unfold extra. rewrite (extra_truth [] t0 R' cur H0 Hpre Hm0 Hcur). exact Hcurf.
+          * intros t0 t0' H0 Hs0. eapply good_seq; eauto.
+          * exact Hd.
+          * exact Hg.
+          * rewrite E_exec_gas_app, HE1. unfold sem_items; cbn [first_match fst snd]. rewrite Ec.
+            apply (IH (CAnd NP (CNot c)) R' k' t1 Hfin).
+            -- intros it' Hin. apply Hok. right; exact Hin.
+            -- exact HNP'.
+            -- intros Emx. cbn [holds]. rewrite Hnp, Ec by exact Emx. reflexivity.
+            -- intros Emx. specialize (Hex Emx). cbn [map excl] in Hex. apply Hex.
+            -- intros x Hx. rewrite Hs1. apply Hag; exact Hx.
+            -- eapply good_seq; eauto.
+            -- intros t' s' Hag' Hfr'. apply Hgh; [exact Hag'|].
+               intros y Hy. rewrite Hfr', Hs1; [reflexivity|].
+               intros Hin. apply Hy. rewrite gvars_app. apply in_or_app. right; exact Hin.
+    Qed.
+  End OneIf.
 End Proof.
